@@ -386,6 +386,36 @@ static long vx_cons, vx_dest;
 static void vcons(void *e, void *p) { (void)p; *(unsigned *)e = 0xC0DEu; vx_cons++; }
 static void vdest(void *e, void *p) { (void)p; if (*(unsigned *)e == 0xDEADu) fail("destructor ran twice on the same element"); *(unsigned *)e = 0xDEADu; vx_dest++; }
 static int ucmp(const void *a, const void *b, void *p) { (void)p; return (*(const unsigned *)a > *(const unsigned *)b) - (*(const unsigned *)a < *(const unsigned *)b); }
+/* more elements than an int can count: 2^31 + 5 one-byte elements, never touched (no constructor), each of which must meet
+ * the destructor exactly once when the vector is cleared / shrunk.  The allocation goes to the real allocator (2 GiB of address space, not of
+ * memory); the destructor reports progress to the hang watchdog. */
+static unsigned long hv_calls; static int hv_bad; static const unsigned char *hv_base; static size_t hv_n, hv_next;
+static void hv_dest(void *e, void *p)
+{
+    /* back to front, as resize does it: the element leaving is always the last one */
+    if ((const unsigned char *)e != hv_base + (hv_next - 1) || p != (void *)&hv_calls) hv_bad++;
+    hv_next--; hv_calls++;
+    if ((hv_calls & 0xFFFFF) == 0) shim_call_seq++;
+}
+static void hugevec_case(int how)
+{
+    cstl_vector_t v; int save = shim_in_lib; size_t n = ((size_t)1 << 31) + 5, keep = how ? 3 : 0;
+    setcase("hugevec:%d", how);
+    shim_in_lib = 0;                                   /* untracked: the request is above the harness's refusal line on purpose */
+    cstl_vector_init_complex(&v, 1, NULL, hv_dest, &hv_calls);
+    cstl_vector_reserve(&v, n);
+    if (cstl_vector_capacity(&v) < n) { shim_in_lib = save; cases--; return; }      /* the machine cannot provide 2 GiB of address space: nothing to decide */
+    cstl_vector_resize(&v, n);
+    hv_base = cstl_vector_data(&v); hv_n = n; hv_next = n; hv_calls = 0; hv_bad = 0;
+    CHECK(cstl_vector_size(&v) == n, "resize(2^31+5) left size %zu", cstl_vector_size(&v));
+    if (how) cstl_vector_resize(&v, keep); else cstl_vector_clear(&v);
+    evals += 2;
+    CHECK(hv_calls == n - keep && hv_bad == 0, "%s of a vector of 2^31+5 elements ran the destructor %lu times (%d of them on the wrong element or with a wrong private pointer), %zu elements left the vector",
+          how ? "resize(3)" : "clear", hv_calls, hv_bad, n - keep);
+    CHECK(cstl_vector_size(&v) == keep, "size %zu afterwards", cstl_vector_size(&v));
+    cstl_vector_clear(&v);
+    shim_in_lib = save;
+}
 static void vector_case(size_t es, int xt, int pattern)
 {
     cstl_vector_t v; size_t size = 0, i, step; static const size_t targets[] = { 1, 7, 8, 9, 63, 64, 65, 255, 256, 257, 100, 1023, 1024, 1025, 3, 4095, 4096, 4097, 0, 5000, 2048, 2049, 1 };
@@ -476,6 +506,7 @@ static void run_family(int thorough, const char *only)
             GUARDED(refs_case(k, rn[r], o));
         }
     }
+    if (is("C09")) { GUARDED(hugevec_case(0)); if (thorough) GUARDED(hugevec_case(1)); }
     if (is("C09")) { static const size_t ess[] = { 1, 3, 4, 8, 24, 64 }; unsigned e; for (e = 0; e < 6 && !nviol; e++) for (a = 0; a < 3 && !nviol; a++) { GUARDED(vector_case(ess[e], 0, a)); if (ess[e] >= 4) GUARDED(vector_case(ess[e], 1, a)); } }
     if (is("C10")) for (a = 0; a < 3 && !nviol; a++) { GUARDED(bigstring(a)); GUARDED(bigwstring(a)); }
     if (is("C12") || is("C13")) for (ni = 0; ni < nn && !nviol; ni++) for (a = 0; a < 5 && !nviol; a++) GUARDED(list_case(is("C12"), tn[ni] == 2049 ? 4097 : tn[ni], a));
@@ -507,6 +538,7 @@ int main(int argc, char **argv)
         else if (sscanf(replay, "vector:%zu:%d:%d", &x, &a, &b) == 3) GUARDED(vector_case(x, a, b));
         else if (sscanf(replay, "clear:%d:%u:%d", &a, &n, &b) == 3) GUARDED(clear_case(a, n, b));
         else if (sscanf(replay, "refs:%d:%u:%d", &a, &n, &b) == 3) GUARDED(refs_case(a, n, b));
+        else if (sscanf(replay, "hugevec:%d", &a) == 1) GUARDED(hugevec_case(a));
         else if (sscanf(replay, "bigstring:%d", &a) == 1) GUARDED(bigstring(a));
         else if (sscanf(replay, "bigwstring:%d", &a) == 1) GUARDED(bigwstring(a));
         else return 4;
